@@ -1,65 +1,379 @@
+mod alphabet;
+mod checks;
 mod drive;
 mod imp;
 mod json;
 mod spec;
+mod x;
+mod xdec;
+mod xenc;
 
-use drive::*;
+use checks::*;
 use imp::*;
-use spec::dec::BomMode;
-use spec::Tok;
+use json::J;
+use std::time::Instant;
+use x::*;
+
+fn arg<'a>(args: &'a [String], name: &str) -> Option<&'a str> {
+    args.iter().position(|a| a == name).and_then(|i| args.get(i + 1)).map(|s| s.as_str())
+}
+
+fn verif_dir() -> String {
+    std::env::var("VERIF_DIR").unwrap_or_else(|_| "/verif".to_string())
+}
 
 fn main() {
     install_quiet_panic_hook();
     let args: Vec<String> = std::env::args().collect();
     match args.get(1).map(|s| s.as_str()) {
-        Some("refcheck") => refcheck(),
+        Some("xdec") => cmd_xdec(&args),
+        Some("check") => cmd_check(&args),
+        Some("replay") => {
+            let text = std::fs::read_to_string(&args[2]).expect("read replay");
+            let j = json::parse(&text).expect("json");
+            match run_replay(&j) {
+                Ok(r) => println!("{}", r.render()),
+                Err(m) => {
+                    eprintln!("replay failed: {}", m);
+                    std::process::exit(2);
+                }
+            }
+        }
         _ => {
-            eprintln!("usage: vh <command>");
+            eprintln!("usage: vh check <property> --tier quick|thorough | vh replay <file> | vh xdec ...");
             std::process::exit(2);
         }
     }
 }
 
-fn refcheck() {
-    let mut diffs = 0usize;
-    let mut n = 0usize;
-    for e in spec::all() {
-        for len in 1..=2usize {
-            let total = 256usize.pow(len as u32);
-            for v in 0..total {
-                let bytes: Vec<u8> = if len == 1 { vec![v as u8] } else { vec![(v >> 8) as u8, v as u8] };
-                let (rt, _) = spec::ref_decode_all(&e, BomMode::Off, &bytes);
-                let run = decode_stream_single(&e, BomMode::Off, Sink::Utf8, false, &bytes).unwrap();
-                n += 1;
-                if run.toks != rt {
-                    diffs += 1;
-                    if diffs < 40 {
-                        println!("DEC {} {} impl: {} | ref: {}", e.name, hex(&bytes), toks_short(&run.toks), toks_short(&rt));
-                    }
-                }
+fn run_replay(j: &J) -> Result<J, String> {
+    match j.get("engine").and_then(|e| e.as_str()) {
+        Some("xdec") => xdec::replay(j),
+        Some("xenc") => xenc::replay(j),
+        Some(e) => Err(format!("unknown engine {}", e)),
+        None => Err("no engine".into()),
+    }
+}
+
+/// Hook-free double replay of a violation; Err = machinery problem.
+fn validate_replay(v: &Violation) -> Result<(), String> {
+    let r = run_replay(&v.replay)?;
+    if let Some(J::Str(expect)) = v.replay.get("expect_last") {
+        let canon = r.get("canon").and_then(|c| c.as_arr()).cloned().unwrap_or_default();
+        let ncalls = v.replay.get("calls").and_then(|c| c.as_arr()).map(|a| a.len()).unwrap_or(0);
+        if expect == "panic" {
+            let p = r.get("panic").and_then(|p| p.get("call")).and_then(|c| c.as_i64());
+            if p != Some(ncalls as i64 - 1) {
+                return Err(format!("explorer saw a panic in call {}, the replay through the public API did not ({:?})", ncalls - 1, p));
+            }
+        } else {
+            let got = canon.get(ncalls.wrapping_sub(1)).and_then(|c| c.as_str()).unwrap_or("<missing>");
+            if got != expect {
+                return Err(format!("explorer observed [{}], replay through the public API observed [{}]", expect, got));
             }
         }
     }
-    println!("decode cases {} diffs {}", n, diffs);
-    let mut ediffs = 0usize;
-    let mut en = 0usize;
-    for e in spec::all() {
-        for c in 0..0x110000u32 {
-            if (0xD800..0xE000).contains(&c) {
+    Ok(())
+}
+
+struct Known {
+    prop: String,
+    frags: Vec<String>,
+    text: String,
+}
+
+fn load_known() -> Vec<Known> {
+    let p = format!("{}/known_findings.txt", verif_dir());
+    let mut v = vec![];
+    if let Ok(t) = std::fs::read_to_string(&p) {
+        for line in t.lines() {
+            let line = line.trim();
+            if !line.starts_with("known:") {
+                continue; // "fixed:" lines and comments suppress nothing
+            }
+            let mut prop = String::new();
+            let mut frags = vec![];
+            let mut rest = vec![];
+            for w in line["known:".len()..].split_whitespace() {
+                if let Some(x) = w.strip_prefix("property=") {
+                    prop = x.to_string();
+                } else if let Some(x) = w.strip_prefix("match=") {
+                    frags = x.split(';').map(|s| s.to_string()).collect();
+                } else {
+                    rest.push(w);
+                }
+            }
+            if !prop.is_empty() && !frags.is_empty() {
+                v.push(Known { prop, frags, text: rest.join(" ") });
+            }
+        }
+    }
+    v
+}
+
+fn signature(v: &Violation) -> String {
+    let g = |k: &str| v.replay.get(k).map(|x| x.render().trim().trim_matches('"').to_string()).unwrap_or_default();
+    format!("kind={} engine={} encoding={} sink={} repl={} bom={} build={} fn={}", v.kind, g("engine"), g("encoding"), g("sink"), g("repl"), g("bom"), build_name(), g("function"))
+}
+
+pub fn build_name() -> &'static str {
+    if cfg!(feature = "simd-accel") {
+        "simd-accel"
+    } else if cfg!(feature = "fast-legacy") {
+        "fast-legacy"
+    } else if cfg!(feature = "less-slow") {
+        "less-slow"
+    } else {
+        "default"
+    }
+}
+
+fn fnv(s: &str) -> u64 {
+    let mut h: u64 = 0xcbf29ce484222325;
+    for b in s.bytes() {
+        h ^= b as u64;
+        h = h.wrapping_mul(0x100000001b3);
+    }
+    h
+}
+
+fn cmd_check(args: &[String]) {
+    let prop = args.get(2).expect("property id").clone();
+    let tier = match arg(args, "--tier").unwrap_or("quick") {
+        "quick" => Tier::Quick,
+        "thorough" => Tier::Thorough,
+        t => panic!("bad tier {}", t),
+    };
+    let seed: i64 = std::env::var("VERIF_SEED").ok().and_then(|s| s.parse().ok()).unwrap_or(0);
+    let t0 = Instant::now();
+    let out = run_check(&prop, tier);
+    let wall = t0.elapsed().as_secs_f64();
+    // ---- violations: own property only; MACHINERY separately
+    let own: Vec<&Violation> = out.vios.list.iter().filter(|v| v.prop == prop).collect();
+    let machinery: Vec<&Violation> = out.vios.list.iter().filter(|v| v.prop == "MACHINERY").collect();
+    let known = load_known();
+    let dir = verif_dir();
+    let _ = std::fs::create_dir_all(format!("{}/replays", dir));
+    let _ = std::fs::create_dir_all(format!("{}/evidence", dir));
+    let mut exit = 0;
+    let mut n_violation_lines = 0usize;
+    let mut n_known = 0usize;
+    let mut printed_known: std::collections::HashSet<String> = std::collections::HashSet::new();
+    let mut machinery_msgs: Vec<String> = machinery.iter().map(|v| format!("{}: {}", v.kind, v.msg)).collect();
+    for v in &own {
+        let sig = signature(v);
+        let path = format!("{}/replays/{}-{:016x}.json", dir, prop, fnv(&v.replay.render()));
+        let mut rj = v.replay.clone();
+        rj.put("property", J::s(&prop));
+        rj.put("kind", J::s(&v.kind));
+        rj.put("signature", J::s(&sig));
+        let _ = std::fs::write(&path, rj.render());
+        if v.replay.get("engine").is_some() && v.replay.get("calls").is_some() {
+            if let Err(m) = validate_replay(v) {
+                machinery_msgs.push(format!("replay of {} diverged: {}", path, m));
                 continue;
             }
-            let rt = ref_encode_all(&e, &[c], true);
-            let s = units_to_utf8(&[c]);
-            let run = encode_chunks_ample(&e, Source::Utf8, false, &[&s], &[], true).unwrap();
-            en += 1;
-            if run.toks != rt {
-                ediffs += 1;
-                if ediffs < 40 {
-                    println!("ENC {} U+{:04X} impl: {} | ref: {}", e.name, c, etoks_short(&run.toks), etoks_short(&rt));
-                }
+        }
+        if let Some(k) = known.iter().find(|k| k.prop == prop && k.frags.iter().all(|f| sig.contains(f.as_str()))) {
+            n_known += 1;
+            let line = format!("KNOWN-FINDING: property={} {}", prop, k.text);
+            if printed_known.insert(line.clone()) {
+                println!("{}", line);
             }
+        } else {
+            println!("VIOLATION property={} replay={}", prop, path);
+            println!("  {} [{}]: {}", v.kind, sig, v.msg);
+            n_violation_lines += 1;
+            exit = 1;
         }
     }
-    println!("encode cases {} diffs {}", en, ediffs);
-    let _ = Tok::Char(0);
+    if !machinery_msgs.is_empty() {
+        for m in &machinery_msgs {
+            eprintln!("MACHINERY: {}", m);
+        }
+        if exit == 0 {
+            exit = 2;
+        }
+    }
+    // ---- evidence
+    let s = &out.stats;
+    let mut cov = J::obj();
+    if out.level == "model_checking" {
+        cov.put("states", J::Int(s.states as i64));
+        cov.put("transitions", J::Int(s.transitions as i64));
+        cov.put("traces_validated_against_impl", J::Int(s.transitions as i64));
+        cov.put("explanation", J::s("every transition is one execution of the real converter through its public API (cloned from the explored state); the reference transducer runs in lock-step and is part of the state key"));
+        cov.put("finished_states", J::Int(s.finished_states as i64));
+        cov.put("max_depth", J::Int(s.max_depth as i64));
+        cov.put("configurations", J::Int(s.configs as i64));
+    }
+    cov.put("evaluations", J::Int((s.evaluations + s.transitions) as i64));
+    cov.put("distinct_nontrivial", J::Int((s.nontrivial + s.states) as i64));
+    cov.put("rule", J::s(&out.rule));
+    cov.put("exhaustive", J::Bool(s.exhaustive));
+    let mut samples = s.samples.clone();
+    if samples.is_empty() {
+        samples.push(J::s("(no sample recorded)"));
+    }
+    cov.put("samples", J::Arr(samples));
+    let mut classes = J::obj();
+    for (k, v) in &s.classes {
+        classes.put(k, J::Int(*v as i64));
+    }
+    cov.put("distinct_outcome_classes", J::Int(s.classes.len() as i64));
+    cov.put("outcome_classes", classes);
+    cov.put("caps_hit", J::Arr(s.caps_hit.iter().map(|c| J::s(c)).collect()));
+    cov.put("notes", J::Arr(s.notes.iter().map(|c| J::s(c)).collect()));
+    let mut sup = J::obj();
+    for (k, v) in &s.suppressed {
+        sup.put(k, J::Int(*v as i64));
+    }
+    cov.put("other_property_observations_not_reported_here", sup);
+    let mut other = J::obj();
+    for ((p, k), c) in &out.vios.counts {
+        if *p != prop {
+            other.put(&format!("{}:{}", p, k), J::Int(*c as i64));
+        }
+    }
+    cov.put("violations_of_other_properties_seen", other);
+    cov.put("build", J::s(build_name()));
+    let ev = J::obj()
+        .set("property_id", J::s(&prop))
+        .set("tier", J::s(if tier == Tier::Quick { "quick" } else { "thorough" }))
+        .set("seed", J::Int(seed))
+        .set("level", J::s(out.level))
+        .set("technique", J::s(&out.technique))
+        .set("coverage", cov)
+        .set("assumptions", J::Arr(out.assumptions.iter().map(|a| J::s(a)).collect()))
+        .set("wall_s", J::Num(wall))
+        .set("violations", J::Int(n_violation_lines as i64))
+        .set("known_findings_matched", J::Int(n_known as i64))
+        .set("machinery_errors", J::Arr(machinery_msgs.iter().map(|m| J::s(m)).collect()));
+    let evp = format!("{}/evidence/{}.json", dir, prop);
+    std::fs::write(&evp, ev.render()).expect("write evidence");
+    println!(
+        "check {} tier {:?}: level {} states {} transitions {} evaluations {} violations {} known {} wall {:.1}s exhaustive {}",
+        prop, tier, out.level, s.states, s.transitions, s.evaluations, n_violation_lines, n_known, wall, s.exhaustive
+    );
+    std::process::exit(exit);
+}
+
+fn run_check(prop: &str, tier: Tier) -> CheckOut {
+    let common_assumptions = vec![
+        "the reference transducers transcribe the Encoding Standard from memory; they agree with the unchanged crate on all 1-2 byte streams and all scalar values, and are keyed to frozen index data in /verif/spec".to_string(),
+        "x86_64 little-endian only; Clone of the converter (verification hook) is a faithful copy (every violation is re-established through the public API without it)".to_string(),
+    ];
+    let has_dec = matches!(prop, "C01" | "C02" | "C05" | "C06" | "C07" | "C08" | "C09" | "C10" | "C18" | "C19");
+    let has_enc = matches!(prop, "C03" | "C04" | "C06" | "C07" | "C08" | "C09" | "C12" | "C18");
+    let only = std::env::var("VERIF_ONLY").unwrap_or_default(); // "dec" / "enc": development aid
+    match prop {
+        _ if has_dec || has_enc => {
+            let mut stats = Stats::new();
+            let mut vios = VioSet::default();
+            if has_dec && only != "enc" {
+                let or = dec_oracles(prop, tier);
+                let plan = dec_plan(prop, tier);
+                let (tag_chunk, tag_single): (&'static str, &'static str) = match prop {
+                    "C10" => ("C10", "C10"),
+                    _ => ("C02", "C01"),
+                };
+                let (s, v) = run_dec_plan(plan, &or, tag_chunk, tag_single);
+                stats.merge(&s);
+                vios.merge(v);
+            }
+            if has_enc && only != "dec" {
+                let or = enc_oracles(prop);
+                let plan = enc_plan(prop, tier);
+                let (s, v) = run_enc_plan(plan, &or, "C04", "C03");
+                stats.merge(&s);
+                vios.merge(v);
+            }
+            CheckOut {
+                level: "model_checking",
+                stats,
+                vios,
+                rule: "explicit-state BFS to a fixpoint over (real converter state, reference state, output debt, unconsumed remainder); actions = every chunk of <= k symbols of the class alphabet x last in {false,true} x capacities around every threshold; a state is non-trivial/distinct by its full key".to_string(),
+                assumptions: common_assumptions,
+                technique: "explicit-state model checking of the real converter (BFS to fixpoint, reference transducer in lock-step)".to_string(),
+            }
+        }
+        _ => {
+            eprintln!("no check for {}", prop);
+            std::process::exit(2);
+        }
+    }
+}
+
+fn cmd_xdec(args: &[String]) {
+    let e = spec::enc(arg(args, "--enc").unwrap_or("Big5"));
+    let sink = Sink::parse(arg(args, "--sink").unwrap_or("utf8"));
+    let repl = arg(args, "--repl").unwrap_or("0") == "1";
+    let bom = xdec::bom_parse(arg(args, "--bom").unwrap_or("off"));
+    let k: usize = arg(args, "--k").unwrap_or("2").parse().unwrap();
+    let words = arg(args, "--words").unwrap_or("1") == "1";
+    let full = arg(args, "--full").unwrap_or("0") == "1";
+    let runs: Vec<usize> = arg(args, "--runs").unwrap_or("").split(',').filter(|s| !s.is_empty()).map(|s| s.parse().unwrap()).collect();
+    let threads: usize = arg(args, "--threads").unwrap_or("16").parse().unwrap();
+    let ors = arg(args, "--oracles").unwrap_or("conform,contract,wellformed,query,progress");
+    let mut or = xdec::Oracles::default();
+    for o in ors.split(',') {
+        match o {
+            "conform" => or.conform = true,
+            "contract" => or.contract = true,
+            "wellformed" => or.wellformed = true,
+            "query" => or.query = true,
+            "progress" => or.progress = true,
+            "graph" => or.graph = true,
+            "prefill3" => or.prefill3 = true,
+            "twin" => or.twin = true,
+            "flags" => or.flags = true,
+            "encoding_used" => or.encoding_used = true,
+            "latin1" => or.latin1 = Some(40),
+            "adversarial_str" => or.adversarial_str = true,
+            "reuse_finished" => or.reuse_finished = true,
+            "submin" => or.submin = true,
+            "aligns" => or.aligns = true,
+            "ladder" => or.ladder = true,
+            "" => {}
+            _ => panic!("unknown oracle {}", o),
+        }
+    }
+    let syms = if full { alphabet::full_bytes() } else { alphabet::dec_syms(&e, false, words, &runs) };
+    let syms_undecided = if bom != spec::dec::BomMode::Off { alphabet::bom_syms(words) } else { vec![] };
+    let cfg = xdec::XCfg {
+        enc: e,
+        sink,
+        repl,
+        bom,
+        syms,
+        syms_undecided,
+        syms_switched: if bom != spec::dec::BomMode::Off { alphabet::switched_syms() } else { vec![] },
+        k,
+        or,
+        threads,
+        max_states: 5_000_000,
+        tag_chunk: "C02",
+        tag_single: "C01",
+        few_caps: arg(args, "--fewcaps").unwrap_or("0") == "1",
+    };
+    let t = Instant::now();
+    println!("{} syms {} k {}", cfg.label(), cfg.syms.len(), k);
+    let out = xdec::explore(&cfg);
+    let s = &out.stats;
+    println!("states {} transitions {} finished {} depth {} exhaustive {} wall {:.2}s", s.states, s.transitions, s.finished_states, s.max_depth, s.exhaustive, t.elapsed().as_secs_f64());
+    for (k, v) in &s.classes {
+        println!("  class {:40} {}", k, v);
+    }
+    for n in &s.notes {
+        println!("  note {}", n);
+    }
+    for (k, v) in &s.suppressed {
+        println!("  suppressed {} {}", k, v);
+    }
+    for ((p, k), c) in &out.vios.counts {
+        println!("  VIO {} {} x{}", p, k, c);
+    }
+    for v in out.vios.list.iter().take(6) {
+        println!("  - {} {}: {}\n    {}", v.prop, v.kind, v.msg, v.replay.render().replace('\n', " "));
+    }
 }
